@@ -321,3 +321,42 @@ class TranslateH(Harness):
 
 
 HARNESSES = [RevComp(), Stranded(), TranslateH()]
+
+
+def prelude(tier):
+    """Spliced transcripts (sequence.genes.get_transcript_sequences): a transcript is its exons joined in genomic order, reverse-complemented
+    as a whole on the '-' strand.  The function works on GTF entries (attribute text, group-by on transcript ids), which the symbolic
+    harnesses do not reach: concrete probes on the real library over every assignment of 1-3 exons to 1-2 transcripts and strands on a
+    10-base reference, reported as real-run probes."""
+    import itertools
+    import time
+    from bionumpy.datatypes import GTFEntry
+    from bionumpy.sequence.genes import get_transcript_sequences
+    t0 = time.time()
+    res = dict(obligations=0, discharged=0, queries=0, inconclusive=[], violations=[], samples=[])
+    comp = {"A": "T", "C": "G", "G": "C", "T": "A"}
+    reference = "AACCGGTTAC"
+    exon_sets = [[(0, 3)], [(0, 3), (5, 7)], [(1, 2), (4, 6), (8, 10)], [(2, 6)], [(0, 1), (9, 10)]]
+    n = 0
+    for ea, eb in itertools.product(exon_sets, repeat=2):
+        for sa, sb in itertools.product("+-", repeat=2):
+            exons = [("t1", a, b, sa) for a, b in ea] + [("t2", a, b, sb) for a, b in eb]
+            n += 1
+            exp = []
+            for name, strand, ex in (("t1", sa, ea), ("t2", sb, eb)):
+                joined = "".join(reference[a:b] for a, b in ex)
+                exp.append((name, joined if strand == "+" else "".join(comp[c] for c in reversed(joined))))
+            try:
+                entries = GTFEntry.from_entry_tuples([("chr1", "probe", "exon", a, b, ".", strand, ".",
+                                                       f'gene_id "g_{name}"; transcript_id "{name}"; exon_number "{i}"; exon_id "{name}.{i}";')
+                                                      for i, (name, a, b, strand) in enumerate(exons)])
+                r = get_transcript_sequences(entries, reference)
+                got = list(zip(r.name.tolist(), r.sequence.tolist()))
+            except Exception as e:
+                got = ("raised", type(e).__name__)
+            if got != exp and len(res["violations"]) < 4:
+                res["violations"].append(dict(obligation="transcript-probe", inputs=dict(reference=reference, exons=[list(t) for t in exons]), output=repr(got),
+                                              why=f"[real run, concrete probe] get_transcript_sequences for exons {exons} on {reference!r} = {got}, expected {exp}"))
+    res["solver_s"] = time.time() - t0
+    res["summary"] = f"get_transcript_sequences probed on {n} exon layouts: {len(res['violations'])} deviations"
+    return res
